@@ -25,6 +25,9 @@ type c05Case struct {
 	ReadDelay  int     `json:"read_delay_ms"`
 	GoMaxProcs int     `json:"gomaxprocs"`
 	SlowReader bool    `json:"slow_reader"` // read in small chunks with pauses (back-pressure)
+	// Rounds > 1: the same burst is repeated on the same connection; a frame
+	// left behind in a buffer at the end of a burst shows up as a missing frame.
+	Rounds int `json:"rounds,omitempty"`
 }
 
 func c05Payload(writer, seq, size int) []byte {
@@ -45,6 +48,20 @@ func genC05(maxWriters int) func(t *rapid.T) c05Case {
 		n := rapid.IntRange(2, maxWriters).Draw(t, "nwriters")
 		if rapid.IntRange(0, 9).Draw(t, "many") == 0 {
 			n = rapid.IntRange(maxWriters, 300).Draw(t, "nwriters-many")
+		}
+		if rapid.IntRange(0, 3).Draw(t, "burst") == 0 {
+			// burst mode: many writers, one or two tiny frames each, several rounds
+			c.Rounds = rapid.IntRange(2, 6).Draw(t, "rounds")
+			n = rapid.SampledFrom([]int{16, 64, 64, 128, 256}).Draw(t, "burst-writers")
+			for i := 0; i < n; i++ {
+				k := rapid.IntRange(0, 2).Draw(t, "burst-frames")
+				sizes := make([]int, k)
+				for j := range sizes {
+					sizes[j] = rapid.SampledFrom([]int{0, 1, 20, 200}).Draw(t, "burst-size")
+				}
+				c.Writers = append(c.Writers, sizes)
+			}
+			return c
 		}
 		budget := 6 << 20 // total bytes per scenario
 		for i := 0; i < n; i++ {
@@ -95,19 +112,31 @@ func c05Exec(c c05Case, st *lab.Stats) *lab.Fail {
 	}
 	var mu sync.Mutex
 	var written []c05Written
-	entered := 0
-	barrier := make(chan struct{})
+	rounds := c.Rounds
+	if rounds < 1 {
+		rounds = 1
+	}
+	const roundStride = 100000
+	entered := make([]int, rounds)
+	barriers := make([]chan struct{}, rounds)
+	for i := range barriers {
+		barriers[i] = make(chan struct{})
+	}
 	h := func(w *gldap.ResponseWriter, r *gldap.Request) {
 		_, id, _ := gldap.VerifMessageInfo(r)
-		wi := int(id) - 1
+		wi := int((id - 1) % roundStride)
+		round := int((id - 1) / roundStride)
+		if round < 0 || round >= rounds {
+			return
+		}
 		mu.Lock()
-		entered++
-		if entered == n {
-			close(barrier)
+		entered[round]++
+		if entered[round] == n {
+			close(barriers[round])
 		}
 		mu.Unlock()
 		select {
-		case <-barrier:
+		case <-barriers[round]:
 		case <-time.After(5 * time.Second):
 		}
 		if wi < 0 || wi >= n {
@@ -149,14 +178,17 @@ func c05Exec(c c05Case, st *lab.Stats) *lab.Fail {
 	}
 	defer cl.Close()
 	filter, _ := compileFilter("(objectClass=*)")
-	var buf []byte
-	for i := 0; i < n; i++ {
-		buf = append(buf, ReqSpec{Req: wire.Req{Kind: "search", MsgID: int64(i + 1), DN: []byte("dc=x"), Scope: 2, Filter: filter}}.Bytes()...)
+	sendRound := func(round int) {
+		var buf []byte
+		for i := 0; i < n; i++ {
+			buf = append(buf, ReqSpec{Req: wire.Req{Kind: "search", MsgID: int64(round*roundStride + i + 1), DN: []byte("dc=x"), Scope: 2, Filter: filter}}.Bytes()...)
+		}
+		go func() { _ = cl.Send(buf) }()
+		if c.ReadDelay > 0 {
+			time.Sleep(time.Duration(c.ReadDelay) * time.Millisecond)
+		}
 	}
-	go func() { _ = cl.Send(buf) }()
-	if c.ReadDelay > 0 {
-		time.Sleep(time.Duration(c.ReadDelay) * time.Millisecond)
-	}
+	sendRound(0)
 	// strict incremental parse of the whole stream
 	type rec struct {
 		MsgID int64
@@ -167,7 +199,12 @@ func c05Exec(c c05Case, st *lab.Stats) *lab.Fail {
 	order := []int64{}
 	dones := 0
 	var ferr error
-	for dones < n {
+	sent := 1
+	for dones < n*rounds {
+		if dones == n*sent && sent < rounds {
+			sendRound(sent)
+			sent++
+		}
 		if c.SlowReader && len(got)%17 == 0 {
 			time.Sleep(300 * time.Microsecond)
 		}
@@ -193,7 +230,7 @@ func c05Exec(c c05Case, st *lab.Stats) *lab.Fail {
 		if _, err := fmt.Sscanf(string(e.DN), "w%d-%d", &wi, &seq); err != nil || len(e.Attrs) != 1 || len(e.Attrs[0].Vals) != 1 {
 			return lab.Failf("torn-frame", "entry %q does not look like anything a writer wrote", truncate(string(e.DN)))
 		}
-		if int64(wi+1) != m.ID {
+		if int64(wi+1) != (m.ID-1)%roundStride+1 {
 			return lab.Failf("merged-frame", "entry of writer %d arrived under message ID %d", wi, m.ID)
 		}
 		got = append(got, rec{MsgID: m.ID, Seq: seq, Hash: sha256.Sum256(e.Attrs[0].Vals[0])})
@@ -207,7 +244,7 @@ func c05Exec(c c05Case, st *lab.Stats) *lab.Fail {
 			mu.Lock()
 			nw := len(written)
 			mu.Unlock()
-			return lab.Failf("lost-frame", "stream ended/stalled (%v) after %d frames and %d of %d SearchDone; handlers report %d successful writes", ferr, len(got), dones, n, nw)
+			return lab.Failf("lost-frame", "stream ended/stalled (%v) after %d frames and %d of %d SearchDone (%d writers x %d rounds); handlers report %d successful writes", ferr, len(got), dones, n*rounds, n, rounds, nw)
 		}
 		return lab.Failf("lost-frame", "read error %v after %d frames", ferr, len(got))
 	}
@@ -261,7 +298,8 @@ func c05Exec(c c05Case, st *lab.Stats) *lab.Fail {
 		}
 	}
 	interleaved := switches > n
-	st.Case(n >= 2 && big && interleaved, lab.JSONKey(c), "transport="+c.Transport, fmt.Sprintf("writers<=%d", bucket(n)),
+	st.Class(fmt.Sprintf("rounds=%d", rounds))
+	st.Case(n >= 2 && (big || rounds > 1) && interleaved, lab.JSONKey(c), "transport="+c.Transport, fmt.Sprintf("writers<=%d", bucket(n)),
 		fmt.Sprintf("interleaved=%v", interleaved), fmt.Sprintf("bigframe=%v", big), fmt.Sprintf("gomaxprocs=%d", c.GoMaxProcs), fmt.Sprintf("slowreader=%v", c.SlowReader))
 	st.AddExtra("frames_checked", int64(len(got)))
 	if st.WantSample() {
@@ -283,7 +321,7 @@ func bucket(n int) int {
 func TestC05(t *testing.T) {
 	lab.Prop[c05Case]{
 		ID: "C05", Part: "writers",
-		Rule: "rapid scenarios: N concurrent writers (2..24, occasionally up to 300) on ONE connection, all released together by a barrier, each writing 1..20 SearchResultEntry frames with payload sizes from {0,1,20,200,1000,4050..4100 (bufio boundary),5000,8192,16384,40000,70000} then a SearchDone; transport plain/TLS/StartTLS; client reads eagerly, late, or slowly (back-pressure); GOMAXPROCS 1/2/4/16; oracle = strict incremental parse of the received stream + multiset equality with the writes that returned nil + per-writer order; non-trivial = >= 2 writers, >= 1 frame > 4096 B and frames of different writers measurably interleaved in the stream; distinct by hash of the scenario",
+		Rule: "rapid scenarios: N concurrent writers (2..24, occasionally up to 300) on ONE connection, all released together by a barrier, each writing 1..20 SearchResultEntry frames with payload sizes from {0,1,20,200,1000,4050..4100 (bufio boundary),5000,8192,16384,40000,70000} then a SearchDone; transport plain/TLS/StartTLS; client reads eagerly, late, or slowly (back-pressure); GOMAXPROCS 1/2/4/16; or 'burst mode': 16..256 writers with 0..2 tiny frames each, the burst repeated 2..6 times on the same connection; oracle = strict incremental parse of the received stream + multiset equality with the writes that returned nil + per-writer order (a frame left behind in a buffer at the end of a burst is a missing frame); non-trivial = >= 2 writers, (>= 1 frame > 4096 B or a multi-round burst) and frames of different writers measurably interleaved in the stream; distinct by hash of the scenario",
 		Gen:  genC05(24),
 		Exec: c05Exec,
 	}.Run(t)
